@@ -45,7 +45,7 @@ def drv(v):
         prepare(Ctx("C06", "quick", 1))
     k = (v, os.getpid())
     if k not in _d:
-        _d[k] = cbuild.Driver(_d["exe_" + v])
+        _d[k] = cbuild.Driver(_d["exe_" + v], max_line=(1 << 24) - 16)
     return _d[k]
 
 
@@ -156,6 +156,8 @@ def oracle(case):
     except cbuild.DriverCrash as c:
         raise Violation("c06:memory-or-panic:%s:%s" % (v, c.signature()), c.stderr[-700:])
     out = out[len(dlcis):]
+    if any(l.startswith("HARNESS-OVERFLOW") for l in out):
+        raise HarnessError("driver output buffer too small for this history")
     # ---- walk the transcript
     queues = {d: [] for d in dlcis}
     wire = bytearray()
